@@ -28,7 +28,6 @@ Three families of cases (field 'fam'):
 Credential identity is read through pysasl's public API only: creds.authcid, creds.authzid and
 creds.verify(ClearIdentity(authcid, secret, prepare=noprep)).
 """
-import re
 import hmac
 import base64
 import random
@@ -1175,12 +1174,12 @@ def run_auth_case(case, R):
         if not is_err(first) or new_calls:
             V({'before-ehlo': M_AUTH_BEFORE_EHLO, 'after-success': M_AUTH_AFTER_OK}.get(gate, M_AUTH_IN_TXN),
               'AUTH answered %r (final %r), application callback invoked %d time(s)' % (first, final, new_calls))
-        if gate == 'after-success':
+        elif gate == 'after-success':
             if not authed_after:
                 V('unclassified/auth-lost-after-refused-second-auth', 'authenticated state is %r after the refused '
                   'second AUTH' % (authed_after,))
         elif authed_after:
-            V(M_AUTH_EARLY, 'session authenticated (%r) although AUTH was not permitted here' % (authed_after,))
+            V(M_AUTH_EARLY, 'AUTH was refused (%r), yet the session is authenticated (%r)' % (first, authed_after))
         return
 
     # ---- malformed: error reply, application not asked, not authenticated
@@ -1323,8 +1322,8 @@ def run_client_case(case, R):
     t.start()
     stalled = False
     try:
-        ban = cl.get_banner()
-        e1 = cl.ehlo('client.test')
+        cl.get_banner()
+        cl.ehlo('client.test')
         st = cl.starttls(cctx())
         got.append(['STARTTLS', st.code, st.message])
         enc = bool(cl.io.encrypted)
